@@ -5,7 +5,7 @@
    user assignments that extend to a model of the generated CNF.  What it leaves open is not: the
    order of the clauses and of the literals in a clause, repetitions, the numbering of the diagram
    nodes (robdd_<id>), the order in which names were registered (solver numbering), the order of
-   the `codified` bookkeeping.  [structural_ok]: the implementation's CNF is the model's CNF as a
+   the `codified` bookkeeping, the numbering of the at-most-one links (aux_<n>).  [structural_ok]: the implementation's CNF is the model's CNF as a
    set of clauses (sets of literals) after translating the node ids through the store entries
    (Cases/CmpC07Set.v) - then C07_post_exact speaks about the implementation's CNF itself.  When the
    form differs (another numbering of the at-most-one links, another but equivalent diagram ...)
@@ -49,11 +49,10 @@ Definition structural_ok (mi m : memory) (s : mgr) (o : c07_obs) : bool :=
   | None => false
   | Some phi =>
       nodes_known phi (o_clauses o) &&
-      cnf_seteqb (clauses s) (ren_cnf phi (o_clauses o)) &&
+      cnf_seteqb_aux (clauses s) (ren_cnf phi (o_clauses o)) (vtable s) (map (ren_var phi) (o_vtable o)) &&
       Nat.eqb (auxcount s) (o_aux o) &&
       nats_seteqb (codified s)
-                  (map (fun id => match phi_get phi id with Some j => j | None => id end) (o_codified o)) &&
-      vars_seteqb (vtable s) (map (ren_var phi) (o_vtable o))
+                  (map (fun id => match phi_get phi id with Some j => j | None => id end) (o_codified o))
   end.
 
 Definition c07_check (m0 : memory) (ps : list post) (o : c07_obs) (sem : c07_sem) : bool :=
